@@ -1,7 +1,7 @@
-CONSTANT Instance = "starkvar"
+CONSTANT Instance = "vararith"
 CONSTANT Disabled = {}
 CONSTANT Mutant = "step_index_zero"
 INIT Init
 NEXT Next
-INVARIANT Agree
+INVARIANT VarOK
 CHECK_DEADLOCK FALSE
